@@ -214,6 +214,22 @@ def run(ck: Check):
                     if not ok:
                         ck.violation(f"timed_run on a child writing {nbytes} bytes to std{stream} and exiting 0 (files={use_files}): {what}",
                                      {"bytes": nbytes, "stream": stream, "files": use_files})
+        # a target that burns CPU on many threads and never ends: it uses CPU time faster than the wall clock - the outcome
+        # is still TIMEOUT (the limit is about elapsed time)
+        busy = ("import hashlib,threading,sys\nsys.stdout.write('started\\n'); sys.stdout.flush()\nb=b'x'*(1<<20)\n"
+                "def w():\n    while True: hashlib.sha256(b).digest()\n"
+                "ts=[threading.Thread(target=w,daemon=True) for _ in range(12)]\n[t.start() for t in ts]\nts[0].join()\n")
+        for use_files in (False, True):
+            try:
+                rd = timed_run([PY, "-c", busy], 2, os.path.join(work, "busy") if use_files else None)
+                got_b = (rd.status.name, rd.return_code)
+            except BaseException as exc:  # pylint: disable=broad-except
+                got_b = ("raised " + type(exc).__name__, None)
+            ck.count("child")
+            ck.nontrivial(("busy-threads", use_files))
+            if got_b != ("TIMEOUT", None):
+                ck.violation(f"timed_run on a child that keeps 12 threads busy and never exits, limit 2 s (files={use_files}): "
+                             f"status {got_b[0]}, return code {got_b[1]}; expected TIMEOUT / None", {"child": "12 busy threads", "limit": 2, "files": use_files})
         # re-use of a log prefix (as `repeat` does): the files must hold exactly the new output
         reuse = os.path.join(work, "reuse")
         for n1, n2 in ((200000, 10), (10, 5000), (5000, 0), (7, 7)):
